@@ -560,6 +560,15 @@ Proof.
   rewrite H1, H2. split; [apply worker_step_other_env | apply worker_step_other_fs]; apply H; now left.
 Qed.
 
+(* the traced loop of the cases files is the same loop *)
+Lemma worker_trace_final ts : forall s,
+  snd (worker_trace exec echo sanitize root ts s) = worker ts s
+  /\ length (fst (worker_trace exec echo sanitize root ts s)) = length ts.
+Proof.
+  unfold Model.worker. induction ts as [|t r IH]; intros s; cbn; [auto|].
+  destruct (IH (worker_step s t)) as [H1 H2]. rewrite H1, H2. auto.
+Qed.
+
 Lemma worker_app a b s : worker (a ++ b) s = worker b (worker a s).
 Proof. apply fold_left_app. Qed.
 
